@@ -174,9 +174,13 @@ class WithStatement(TypedExpression):
                 indent_prefix = " " * indent
                 if body_str.startswith(indent_prefix):
                     body_str = body_str[len(indent_prefix) :]
+        elif body_force_newline:
+            # The layout is already decided: no inline preview of the body.
+            body_sep = "\n"
+            body_str = self.body.rebuild(indent=indent, inline=False)
         else:
             inline_body = self.body.rebuild(indent=indent, inline=True)
-            if body_force_newline or "\n" in inline_body:
+            if "\n" in inline_body:
                 body_sep = "\n"
                 body_str = self.body.rebuild(indent=indent, inline=False)
             else:
